@@ -1265,14 +1265,23 @@ def sliceguard(rep, c, sfx):
             r.instance(key, where(x))
             ordered = False
             for g in ctx.guards(x):
-                if g[0] not in ("if", "not", "guard"):
-                    continue
-                for y in walk(g[1]):
-                    if kind(y) == "Binary" and y["op"] in ("<", "<=", ">", ">="):
-                        sides = [peel(y["l"]), peel(y["r"])]
-                        names = sorted(s["name"] for s in sides if kind(s) == "Field" and hirq.local_id(s["base"]) == idx["id"])
-                        if names == ["end", "start"]:
-                            ordered = True
+                conds = []
+                if g[0] in ("if", "not", "guard"):
+                    conds.append((g[1], idx["id"]))
+                elif g[0] == "arm":
+                    # `Some(range) if range.end <= range.start => .., Some(range) => stack[range]`: the earlier arm's
+                    # guard tests the same value under its own binding
+                    for a in g[1]["arms"][:g[2]]:
+                        if a.get("guard") is not None:
+                            for (bid, nm) in hirq.pat_bindings(a["pat"]):
+                                conds.append((a["guard"], bid))
+                for (cnd, rid) in conds:
+                    for y in walk(cnd):
+                        if kind(y) == "Binary" and y["op"] in ("<", "<=", ">", ">="):
+                            sides = [peel(y["l"]), peel(y["r"])]
+                            names = sorted(s["name"] for s in sides if kind(s) == "Field" and hirq.local_id(s["base"]) == rid)
+                            if names == ["end", "start"]:
+                                ordered = True
             if not ordered:
                 r.violation(key, where(x),
                             "ParserState::%s indexes the stack with `%s` without having compared its end with its start: a "
